@@ -186,9 +186,21 @@ func (ev *evalCtx) bin(e *SExpr) Val {
 			return ev.fail("'in' on non-map")
 		}
 		dom := ev.read("Mdom."+mk, "(Array "+ks+" Bool)", m.T)
+		if isFreshRef(m.T) {
+			return ghost("(select "+dom+" "+k.T+")", "Bool")
+		}
 		return ghost("(and (distinct "+m.T+" 0) (select "+dom+" "+k.T+"))", "Bool")
 	}
 	a := ev.eval(e.Args[0])
+	if (op == "&&" || op == "==>") && a.T == "false" {
+		if op == "&&" {
+			return ghost("false", "Bool")
+		}
+		return ghost("true", "Bool")
+	}
+	if op == "||" && a.T == "true" {
+		return ghost("true", "Bool")
+	}
 	b := ev.eval(e.Args[1])
 	switch op {
 	case "&&":
@@ -391,8 +403,8 @@ func (ev *evalCtx) call(e *SExpr) Val {
 		if a.Typ != nil {
 			if _, ok := types.Unalias(a.Typ).Underlying().(*types.Map); ok {
 				_, mk, ks := ex.mapInfo(a)
-				ln := ev.read("Mlen."+mk, "Int", a.T)
-				dom := ev.read("Mdom."+mk, "(Array "+ks+" Bool)", a.T)
+				ln := "(ite (= " + a.T + " 0) 0 " + ev.read("Mlen."+mk, "Int", a.T) + ")"
+				dom := "(ite (= " + a.T + " 0) ((as const (Array " + ks + " Bool)) false) " + ev.read("Mdom."+mk, "(Array "+ks+" Bool)", a.T) + ")"
 				st.assume("(>= " + ln + " 0)")
 				st.assume("(= (= " + ln + " 0) (forall ((k " + ks + ")) (not (select " + dom + " k))))")
 				return ghost(ln, "Int")
@@ -420,6 +432,23 @@ func (ev *evalCtx) call(e *SExpr) Val {
 		return ghost("(ch_tag "+argv(0).T+")", "Int")
 	case "cap":
 		return ghost("(ch_cap "+argv(0).T+")", "Int")
+	case "bound":
+		if len(e.Args) != 1 || e.Args[0].Op != "str" {
+			return ev.fail("bound(\"name\")")
+		}
+		if _, ok := ev.lookupName(e.Args[0].Str); ok {
+			return ghost("true", "Bool")
+		}
+		return ghost("false", "Bool")
+	case "isclass":
+		if len(e.Args) != 2 || e.Args[1].Op != "str" {
+			return ev.fail("isclass(ch, \"name\")")
+		}
+		cc := ex.specs.Classes[e.Args[1].Str]
+		if cc == nil {
+			return ev.fail("unknown channel class %s", e.Args[1].Str)
+		}
+		return ghost(fmt.Sprintf("(= (ch_class %s) %d)", argv(0).T, cc.ID), "Bool")
 	case "done":
 		return ghost(ev.read("ctxdone", "Bool", argv(0).T), "Bool")
 	case "visited":
@@ -441,7 +470,14 @@ func (ev *evalCtx) call(e *SExpr) Val {
 		}
 		return ghost("false", "Bool")
 	case "ite":
-		c, a, b := argv(0), argv(1), argv(2)
+		c := argv(0)
+		if c.T == "true" {
+			return argv(1)
+		}
+		if c.T == "false" {
+			return argv(2)
+		}
+		a, b := argv(1), argv(2)
 		out := a
 		out.T = smtIte(c.T, a.T, b.T)
 		return out
